@@ -2,7 +2,7 @@
 """Re-run the registered checks against every kept seeded change (seeded/<id>/patch.diff) in a scratch
 worktree and refresh seeded/<id>/meta.json["caught_by"]; prints a table.  usage: tools/reseed.py [id-prefix ...]"""
 import json, os, subprocess, sys, tempfile, glob
-V = "/verif"
+V = os.path.dirname(os.path.dirname(os.path.abspath(__file__)))
 sel = sys.argv[1:]
 rows = []
 for d in sorted(glob.glob(V + "/seeded/*")):
